@@ -220,9 +220,10 @@ func (s nstate) step(l nletter) []nbranch {
 		closed := n.stmt[nIdx(l.A)]
 		n.stmt[nIdx(l.A)] = ""
 		out = []nbranch{{reply: []string{"3"}, next: n}}
-		// fate of portals bound to the closed statement is not asserted: they keep
-		// the old statement, or are gone — never a different statement
-		if closed != "" {
+		// "Close makes the name unresolvable" - the closed name. A portal bound to the statement earlier was not
+		// closed: "a later Execute or Describe of that portal uses that statement". (An earlier revision admitted
+		// portals that vanish with their statement; the statement of the property does not.)
+		if closed != "" && c07TolerateCascade {
 			for mask := 1; mask < 4; mask++ {
 				m := n
 				changed := false
@@ -250,7 +251,14 @@ func (s nstate) step(l nletter) []nbranch {
 	panic("c07 step: " + l.Name)
 }
 
+// c07TolerateCascade: admit portals that vanish when their statement is closed / when a cycle ends (PostgreSQL's
+// behaviour). Off: the property's statement lets a portal live until it is closed or its name is bound again.
+const c07TolerateCascade = false
+
 func forkDropPortals(in []nbranch) []nbranch {
+	if !c07TolerateCascade {
+		return in
+	}
 	out := in
 	for _, b := range in {
 		if b.next.portal[0].prog != "" || b.next.portal[1].prog != "" {
@@ -875,6 +883,23 @@ func c07RunRecycled(parsesAfter int, otherConn bool) explore.Result {
 }
 
 func c07Enumerate(tier string, emit explore.Emit) {
+	// a statement and a portal are defined, then 4.5 ... 9 KB of other messages arrive on the connection and / or
+	// other connections come and go, then the portal is executed: the names still resolve (C03's retention runner)
+	for _, r := range [][3]int{{3, 1500, 0}, {40, 200, 0}, {100, 60, 0}, {0, 0, 40}, {100, 60, 40}} {
+		r := r
+		emit(explore.Case{Family: "long-names", Size: 47,
+			Desc: func() any {
+				return map[string]any{"between_bind_and_execute": fmt.Sprintf("%d Parse messages of %d bytes, %d other connections", r[0], r[1], r[2])}
+			},
+			Run: func() explore.Result {
+				res := c03RunRetention(r[0], r[1], r[2])
+				res.Outcome = "plain"
+				for i := range res.Violations {
+					res.Violations[i].Clause = "wrong-resolution"
+				}
+				return res
+			}})
+	}
 	for _, sn := range []string{"", "a"} {
 		for _, pn := range []string{"", "x"} {
 			for _, defined := range []bool{true, false} {
